@@ -35,6 +35,7 @@ import (
 	authtypes "github.com/cosmos/cosmos-sdk/x/auth/types"
 	banktypes "github.com/cosmos/cosmos-sdk/x/bank/types"
 	govtypes "github.com/cosmos/cosmos-sdk/x/gov/types"
+	slashingtypes "github.com/cosmos/cosmos-sdk/x/slashing/types"
 	stakingtypes "github.com/cosmos/cosmos-sdk/x/staking/types"
 
 	"github.com/ethereum/go-ethereum/accounts/abi"
@@ -81,19 +82,21 @@ func NewAcct(label string) Acct {
 // Chain is one teleport application instance plus what a relayer would know
 // about it (validator keys, last signed header).
 type Chain struct {
-	App       *app.Teleport
-	ChainID   string // tendermint chain id == xibc chain name
-	TxConfig  client.TxConfig
-	Header    tmproto.Header      // header of the block being built
-	LastHdr   *xibctmtypes.Header // signed header of the last committed block
-	Hdrs      map[int64]*xibctmtypes.Header
-	Vals      *tmtypes.ValidatorSet
-	Signers   []tmtypes.PrivValidator
-	Accts     []Acct
-	Now       time.Time
-	Panicked  string // set when Begin/EndBlock panicked (recorded, never hidden)
-	LastBegin abci.ResponseBeginBlock
-	LastEnd   abci.ResponseEndBlock
+	App          *app.Teleport
+	ChainID      string // tendermint chain id == xibc chain name
+	TxConfig     client.TxConfig
+	Header       tmproto.Header      // header of the block being built
+	LastHdr      *xibctmtypes.Header // signed header of the last committed block
+	Hdrs         map[int64]*xibctmtypes.Header
+	Vals         *tmtypes.ValidatorSet
+	Signers      []tmtypes.PrivValidator
+	Accts        []Acct
+	Now          time.Time
+	Panicked     string // set when Begin/EndBlock panicked (recorded, never hidden)
+	LastBegin    abci.ResponseBeginBlock
+	NextEvidence []abci.Evidence // misbehaviour reported to the next BeginBlock
+	Val2Cons     sdk.ConsAddress // consensus address of the second validator (ChainOpts.SecondVal)
+	LastEnd      abci.ResponseEndBlock
 }
 
 func seededPV(label string) mock.PV {
@@ -186,6 +189,16 @@ func NewChain(o ChainOpts) *Chain {
 		bonded = bondAmt.MulRaw(2)
 	}
 	gs[stakingtypes.ModuleName] = a.AppCodec().MustMarshalJSON(stakingtypes.NewGenesisState(stakingtypes.DefaultParams(), validators, delegations))
+	var val2Cons sdk.ConsAddress
+	if o.SecondVal {
+		// the second validator can be reported for a double sign: the slashing module needs its signing info (validators
+		// bonded at genesis get none from the staking hooks)
+		pub2, _ := seededPV(o.ChainID + "/val2").GetPubKey()
+		val2Cons = sdk.ConsAddress(pub2.Address())
+		sl := slashingtypes.DefaultGenesisState()
+		sl.SigningInfos = []slashingtypes.SigningInfo{{Address: val2Cons.String(), ValidatorSigningInfo: slashingtypes.NewValidatorSigningInfo(val2Cons, 0, 0, time.Unix(0, 0).UTC(), false, 0)}}
+		gs[slashingtypes.ModuleName] = a.AppCodec().MustMarshalJSON(sl)
+	}
 
 	evmGen := evmtypes.DefaultGenesisState()
 	evmGen.Params.EvmDenom = sdk.DefaultBondDenom
@@ -220,7 +233,7 @@ func NewChain(o ChainOpts) *Chain {
 	})
 	c := &Chain{App: a, ChainID: o.ChainID, TxConfig: enc.TxConfig, Vals: valSet,
 		Signers: []tmtypes.PrivValidator{pv}, Accts: o.Accts, Now: StartTime,
-		Hdrs: map[int64]*xibctmtypes.Header{}}
+		Hdrs: map[int64]*xibctmtypes.Header{}, Val2Cons: val2Cons}
 	a.Commit()
 	c.Header = tmproto.Header{ChainID: o.ChainID, Height: a.LastBlockHeight() + 1, Time: c.Now,
 		AppHash: a.LastCommitID().Hash, ValidatorsHash: valSet.Hash(), NextValidatorsHash: valSet.Hash(),
@@ -251,7 +264,9 @@ func (c *Chain) beginBlock() {
 		}
 	}()
 	c.LastBegin = abci.ResponseBeginBlock{}
-	c.LastBegin = c.App.BeginBlock(abci.RequestBeginBlock{Header: c.Header})
+	ev := c.NextEvidence
+	c.NextEvidence = nil
+	c.LastBegin = c.App.BeginBlock(abci.RequestBeginBlock{Header: c.Header, ByzantineValidators: ev})
 	DetRecord("begin", c.LastBegin.Events)
 }
 
